@@ -42,6 +42,8 @@ ASSUMPTIONS = [
     "in-place mutation of an option that also has a pending whole-value assignment is not generated (DESIGN C10 L)",
     "comma-list options are judged on the wire form only: one joined value or one item per element (DESIGN C10 L)",
     "an option whose pending value equals what Tor already holds may or may not be named by the SETCONF",
+    "list elements may be ints (incl. 0), booleans or the empty string: each goes out as str(element); a list holding an "
+    "empty-string element is judged on the wire only ('Key=' is a clear in Tor's grammar)",
     "scalars are never assigned the empty string; list options are only assigned lists; Port-family options that "
     "bootstrap from neither a value nor a default only get append/extend/insert(0)/assignment (their base view is "
     "txtorcon's [DEFAULT] marker list, outside the model)",
@@ -232,6 +234,15 @@ def _nasty(rnd, plain):
 
 def gen_assign_value(rnd, typ):
     v = _gen_assign_value(rnd, typ)
+    if isinstance(v, list) and rnd.random() < 0.12:
+        r = rnd.random()
+        if r < 0.3 or not v:
+            v = [odd_elem(rnd, typ)]                       # e.g. SocksPort = [0]: all elements falsy
+        elif r < 0.65:
+            v.insert(rnd.randint(0, len(v)), odd_elem(rnd, typ))
+        else:
+            v[rnd.randrange(len(v))] = odd_elem(rnd, typ)
+        return v
     if typ in CT.STR_TYPES and rnd.random() < 0.3:
         return nasty(rnd, v)
     if typ == CT.LINELIST and v and rnd.random() < 0.3:
@@ -271,7 +282,20 @@ def _gen_assign_value(rnd, typ):
     return out
 
 
+def odd_elem(rnd, typ):
+    """list elements that are not (non-empty) strings: ints incl. 0, booleans, the empty string;
+    on the wire each is str(element), once, in order"""
+    k = CT.kind_of(typ)
+    if k == "commalist":
+        return rnd.choice([0, 0, 80, 443, 9001])
+    if k == "portlist":
+        return rnd.choice([0, 0, 9001, 9002, 1337, False, ""])
+    return rnd.choice([0, 0, 7, False, True, "", ""])
+
+
 def gen_elem(rnd, typ):
+    if rnd.random() < 0.07:
+        return odd_elem(rnd, typ)
     if typ == CT.LINELIST and rnd.random() < 0.15:
         return nasty(rnd, CT.gen_line(rnd))
     k = CT.kind_of(typ)
@@ -445,7 +469,36 @@ def gen_overlap_case(rnd, table):
             if validated(m.types[n], a) != validated(m.types[n], b) and validated(m.types[n], a) != m.view[n]:
                 aba = (n, a, b)
                 break
-    steps.extend(edits(1, 3))
+    laba = None
+    only_inplace = rnd.random() < 0.5
+    want_laba = not aba and rnd.random() < 0.25
+    if want_laba and not only_inplace:
+        steps.extend(edits(1, 3))
+    if want_laba:
+        # a list goes S1 -> (save) -> S2 -> (save) -> S1 by in-place operations only
+        cands = [x for x in m.order if m.kind(x) != "scalar" and x not in m.fuzzy
+                 and not (x in m.pending and m.pending[x][0] == "assign")]
+        n = rnd.choice(cands)
+        e = gen_elem(rnd, m.types[n])
+        cur = m.base(n)
+        kind = rnd.choice(["append-pop-append", "pop-append-pop", "insert-remove-insert", "setitem"])
+        if kind == "append-pop-append" or not cur:
+            ops = [("append", [e]), ("pop", []), ("append", [e])]
+        elif kind == "pop-append-pop":
+            ops = [("pop", []), ("append", [cur[-1]]), ("pop", [])]
+        elif kind == "insert-remove-insert":
+            i = rnd.randint(0, len(cur))
+            e = "only-once " + str(e)
+            ops = [("insert", [i, e]), ("remove", [e]), ("insert", [i, e])]
+        else:
+            i = rnd.randrange(len(cur))
+            ops = [("setitem", [i, e]), ("setitem", [i, cur[i]]), ("setitem", [i, e])]
+        laba = [{"op": "inplace", "name": CT.anycase(rnd, n), "opt": n, "method": mth, "args": a} for mth, a in ops]
+    if not want_laba:
+        steps.extend(edits(1, 3))
+    if laba:
+        m.edit(laba[0])
+        steps.append(laba[0])
     if aba:
         st = {"op": "assign", "name": CT.anycase(rnd, aba[0]), "opt": aba[0], "value": aba[1]}
         m.edit(st)
@@ -478,6 +531,11 @@ def gen_overlap_case(rnd, table):
         snaps.append(dict(m.pending))
         last = i == nsaves - 1
         eds = edits(0, 1) if last else edits(1, 2)
+        if laba:
+            eds = [] if only_inplace else [e for e in eds if e["opt"] != laba[0]["opt"]]
+            if i < 2:
+                m.edit(laba[i + 1])
+                eds.append(laba[i + 1])
         if aba and i < 2:
             st = {"op": "assign", "name": CT.anycase(rnd, aba[0]), "opt": aba[0], "value": aba[2 if i == 0 else 1]}
             m.edit(st)
@@ -561,6 +619,10 @@ def vfeat(v):
     """structural features of a value (or list of values) that matter for the wire encoding"""
     vals = [str(x) for x in v] if isinstance(v, list) else [str(v)]
     f = set()
+    if isinstance(v, list) and "" in vals:
+        f.add("empty-string-element")
+    if isinstance(v, list) and any(x in ("0", "False") for x in vals):
+        f.add("zero-or-false-element")
     for x in vals:
         if '"' in x:
             f.add("dquote")
@@ -731,6 +793,7 @@ class Run(object):
                 if kind == "commalist" and want != []:
                     # an empty comma list may be viewed as [''] (C11 leniency): empty items carry nothing
                     vals = [v for v in vals if v not in (None, "")]
+                    want = [v for v in want if v != ""] or want
                 if want == []:
                     if vals not in ([None], [""]):
                         self.V("emptied-list-not-cleared", kind, {"line": line, "option": c, "got": vals})
@@ -766,8 +829,8 @@ class Run(object):
             # the store now holds what was delivered (sanity of decode == store semantics)
             for n, (how, want, _ser) in delivered.items():
                 want = wire(want)
-                if m.kind(n) == "commalist":
-                    continue
+                if m.kind(n) == "commalist" or "" in want:
+                    continue              # ('' element: "Key=" is a clear in Tor's grammar; judged on the wire only)
                 if want == wire(m.view[n]):
                     continue              # no-op change: naming it was optional
                 got = tor.conf.get(n)
@@ -779,7 +842,7 @@ class Run(object):
                 self.V("needs-save-true-after-ack", "general", {"unsaved": repr(dict(cfg.unsaved))[:300]})
             # reads return the saved values (= the store)
             for n in delivered:
-                if m.kind(n) == "commalist":
+                if m.kind(n) == "commalist" or (isinstance(m.view[n], list) and "" in wire(m.view[n])):
                     continue
                 if n in m.pending:
                     continue
@@ -930,13 +993,36 @@ class Run(object):
         for ent in info:
             touched.update(ent["groups"] or ())
         for n in sorted(touched):
-            if m.kind(n) == "commalist":
-                continue
             v = m.view[n]
             want = wire(v) if isinstance(v, list) else ([v] if v is not None else [])
+            if m.kind(n) == "commalist" or "" in want:
+                continue
             got = tor.conf.get(n) or list(m.defaults.get(n) or [])
             if got != want and not (want == [] ):
                 self.V("store-differs-from-accepted-saves", cls, {"option": n, "store": got, "want": want})
+            if n in m.pending:
+                continue                  # still pending: what reads return is not specified
+            # nothing pending for it any more: reads return what Tor holds, whatever the order of answers was
+            try:
+                read = getattr(cfg, spell.get(n, n))
+            except Exception as e:
+                self.V("read-raised", cls, {"option": n, "exc": repr(e)})
+            rec.count("reads_compared")
+            rec.count("overlap_reads_compared")
+            first_rej = next((i for i, e in enumerate(info) if e["groups"] and n in e["groups"] and e["reply"] != "ok"), None)
+            later_ok = first_rej is not None and any(e["groups"] and n in e["groups"] and e["reply"] == "ok"
+                                                     for e in info[first_rej + 1:])
+            rcls = cls + ("+rejected-then-accepted" if later_ok else "")
+            if m.kind(n) == "scalar":
+                ok, why = CT.read_matches(read, m.types[n], got, None)
+                if not ok and (why == "type" or (got and str(read) == got[-1])):
+                    ok = True
+                if not ok:
+                    self.V("read-after-ack", "scalar+" + rcls, {"option": n, "read": repr(read), "store": got})
+            else:
+                rl = [str(x) for x in read if x != "DEFAULT"] if isinstance(read, list) else None
+                if rl != got and not (rl == [] and want == []):
+                    self.V("read-after-ack", m.kind(n) + "+" + rcls, {"option": n, "read": repr(read), "store": got})
         must = m.must()
         rec.count("overlap_outcomes_checked")
         if must and not cfg.needs_save():
